@@ -73,50 +73,60 @@ def discover_sites(prog, scope_prefixes):
 
 
 def rule_hash_binding(ctx, table, scope_prefixes, cfg='prod-all', only_fns=None, roles=('msg', 'dst')):
+    """For every tabled function R: the hash call sites reachable from R through local helpers (not crossing into another tabled function)
+    are matched, in order, with R's table rows; each tabled ingredient must reach the hashed buffer / DST on every path.  Atoms of a site
+    inside a helper are lifted to R's parameters through the call chain.  A hash call site reachable from no tabled function is reported."""
+    from flow import walk
     prog, eng = ctx.prog(cfg), ctx.eng(cfg)
-    sites = discover_sites(prog, scope_prefixes)
-    by_fn = {}
-    for (p, bi, t, k) in sites:
-        by_fn.setdefault(p, []).append((bi, t, k))
-    # every discovered site must be tabled, every tabled fn must exist
     for fn in table:
         if only_fns and fn not in only_fns:
             continue
         if fn not in prog.bodies:
             raise AnchorMissing('hash site function %s not found' % fn)
-    for p, lst in by_fn.items():
-        if only_fns and p not in only_fns:
+    covered = set()
+    for root in sorted(table):
+        if root not in prog.bodies:
             continue
-        body = prog.bodies[p]
-        if p not in table:
-            yield Ob('RF-C', '%s#untabled-hash-site' % p, False, 'hash call site in a function that has no ingredient table',
-                     body.span, fact=[x[2] for x in lst], expected='table row')
-            continue
-        rows = table[p]
-        lst = sorted(lst, key=lambda x: (x[1]['line'], x[0]))
-        if len(lst) != len(rows):
-            yield Ob('RF-C', '%s#site-count' % p, False, 'number of hash call sites differs from table',
-                     body.span, fact=len(lst), expected=len(rows))
-            continue
-        fd = eng.fndep(p)
-        mf = MustFlow(eng, fd)
-        for idx, ((bi, t, k), (csuf, msg_req, dst_req)) in enumerate(zip(lst, rows)):
-            if not callee_matches(t, csuf):
-                yield Ob('RF-C', '%s#%d-callee' % (p, idx), False, 'hash site callee differs from table',
-                         '%s L%s' % (body.file(), t['line']), fact=t.get('callee'), expected=csuf)
+        rows = table[root]
+        body = prog.bodies[root]
+        sites = []
+        for fr in walk(eng, root, include_closures=True):
+            if fr.path != root and fr.path in table:
                 continue
+            # do not descend below another tabled function: frames whose chain contains one (other than the root) are skipped
+            if any(c in table for c in fr.chain()[1:]):
+                continue
+            for bi, t in fr.body.calls():
+                k = _site_callee_key(t)
+                if k:
+                    sites.append((fr, bi, t, k))
+                    covered.add((fr.path, bi))
+        if only_fns and root not in only_fns:
+            continue
+        sites.sort(key=lambda x: (x[0].depth(), x[2]['line'], x[1]))
+        if len(sites) != len(rows):
+            yield Ob('RF-C', '%s#site-count' % root, False, 'number of hash call sites reachable from this function differs from its table',
+                     body.span, fact=[(x[0].path.split('::')[-1], x[3]) for x in sites], expected=len(rows))
+            continue
+        for idx, ((fr, bi, t, k), (csuf, msg_req, dst_req)) in enumerate(zip(sites, rows)):
+            if not callee_matches(t, csuf):
+                yield Ob('RF-C', '%s#%d-callee' % (root, idx), False, 'hash site callee differs from table',
+                         '%s L%s' % (fr.body.file(), t['line']), fact=t.get('callee'), expected=csuf)
+                continue
+            mf = MustFlow(eng, fr.fd)
             mi, di = HASH_CALLEES[k]
             for role, ai, reqs in (('msg', mi, msg_req), ('dst', di, dst_req)):
                 if ai is None or role not in roles:
                     continue
                 arg = t['args'][ai]
                 if arg['k'] in ('copy', 'move'):
-                    must = mf.must_atoms_place(arg['pl'], bi)
-                    may = fd.read_op(arg)
+                    must = fr.lift(mf.must_atoms_place(arg['pl'], bi))
+                    may = fr.lift(fr.fd.read_op(arg))
                 else:
-                    must = may = fd.const_atoms(arg)
+                    must = may = fr.fd.const_atoms(arg)
                 for r in reqs:
-                    alts = [x.strip() for x in r.split('|')]
+                    loop_carried = r.startswith('~')     # folded inside a loop over a caller-chosen list: reaches the buffer when the list is non-empty
+                    alts = [x.strip() for x in r.lstrip('~').split('|')]
                     ok = False
                     narrow = False
                     for a in alts:
@@ -126,17 +136,24 @@ def rule_hash_binding(ctx, table, scope_prefixes, cfg='prod-all', only_fns=None,
                             if len(alts) == 1:
                                 raise
                             continue
-                        if has(must, req):
+                        if has(must, req) or (loop_carried and has(must | may, req)):
                             ok = True
                         elif has_narrow_only(must | may, req):
                             narrow = True
-                    key = '%s#%s[%d].%s∋%s' % (p, csuf, idx, role, r)
-                    what = 'ingredient %s must reach the %s of %s on every path' % (r, role, csuf)
+                    key = '%s#%s[%d].%s∋%s' % (root, csuf, idx, role, r)
+                    what = 'ingredient %s must reach the %s of %s %s' % (r.lstrip('~'), role, csuf, 'inside its loop' if loop_carried else 'on every path')
                     if narrow and not ok:
                         what += ' (present only through a narrowing cast / mask)'
-                    yield Ob('RF-C', key, ok, what, '%s L%s' % (body.file(), t['line']),
-                             fact={'must': fmt_atoms(body, must)[:40], 'may_only': fmt_atoms(body, may - must)[:20]},
+                    yield Ob('RF-C', key, ok, what, '%s L%s' % (fr.body.file(), t['line']),
+                             fact={'must': fmt_atoms(body, must)[:40], 'may_only': fmt_atoms(body, may - must)[:20], 'site_in': fr.path.split('::')[-1]},
                              expected=r)
+    # hash call sites no tabled function reaches
+    for (p, bi, t, k) in discover_sites(prog, scope_prefixes):
+        if (p, bi) not in covered:
+            if only_fns:
+                continue
+            yield Ob('RF-C', '%s#untabled-hash-site' % p, False, 'hash call site that no function with an ingredient table reaches',
+                     '%s L%s' % (prog.bodies[p].file(), t['line']), fact=t.get('callee'), expected='table row')
 
 
 def rule_i2osp_width(ctx, widths=I2OSP_WIDTH, cfg='prod-all'):
@@ -166,3 +183,26 @@ def rule_i2osp_width(ctx, widths=I2OSP_WIDTH, cfg='prod-all'):
             if callee_matches(t, 'utils::util::bbsplus_utils::i2osp') and (p, bi) not in covered:
                 yield Ob('RF-C', '%s#i2osp-untabled' % p, False, 'I2OSP call not reachable from any function with a tabled width', '%s L%s' % (b.file(), t['line']),
                          fact=(t.get('cargs') or ['?'])[0], expected='table row')
+
+
+# ------------------------------------------------------------------ CL03 Fiat-Shamir tables (sigma protocols of issuance and presentation)
+_SP = 'cl03::sigma_protocols::'
+CL03_FS_TABLE = {
+    # proof that two commitments (under the issuer key and under the commitment key) hide the same attributes
+    _SP + 'NISP2Commitments::nisp2_generate_proof_MultiSecrets': [
+        ('digest::Digest::digest', ['~a_bases', '~commitment_pk.g_bases', 'signer_pk.b', 'signer_pk.N', 'commitment_pk.h', 'commitment_pk.N',
+                                    '~unrevealed_message_indexes'], [])],
+    _SP + 'NISP2Commitments::nisp2_verify_proof_MultiSecrets': [
+        ('digest::Digest::digest', ['self.challenge', '~self.d', 'self.d_1', 'self.d_2', 'c1.value', 'c2.value', '~a_bases', '~commitment_pk.g_bases',
+                                    'signer_pk.b', 'signer_pk.N', 'commitment_pk.h', 'commitment_pk.N', '~unrevealed_message_indexes'], [])],
+    # knowledge of the opening (m, r) of one commitment
+    _SP + 'NISPSecrets::nisp2sec_generate_proof': [
+        ('digest::Digest::digest', ['g1', 'h1', 'n1', 'commitment.value'], [])],
+    _SP + 'NISPSecrets::nisp2sec_verify_proof': [
+        ('digest::Digest::digest', ['g1', 'h1', 'commitment.value', 'self.t'], [])],
+    # knowledge of the hidden attributes inside the commitment the issuer signs
+    _SP + 'NISPMultiSecrets::nispMultiSecrets_generate_proof': [
+        ('digest::Digest::digest', ['~a_bases', 'signer_pk.b', 'signer_pk.N', 'commitment.value', '~unrevealed_message_indexes'], [])],
+    _SP + 'NISPMultiSecrets::nispMultiSecrets_verify_proof': [
+        ('digest::Digest::digest', ['~a_bases', 'signer_pk.b', 'commitment.value', 'self.t', '~unrevealed_message_indexes'], [])],
+}
